@@ -9,7 +9,7 @@
 # them). Per-run event-log hashes, tape lengths and violation classes are compared.
 # usage: tools/determinism.sh <ID> [runs] [seed]
 # exit 0 = the registered configuration (GOMAXPROCS=1) never diverged; 1 = it diverged.
-id=$1; runs=${2:-40}; seed=${3:-11}
+id=$1; runs=${2:-160}; seed=${3:-11}
 cd /verif
 . ./env.sh
 lc=$(echo $id | tr A-Z a-z)
